@@ -364,6 +364,15 @@ func containsRem(v ssa.Value, depth int) *ssa.BinOp {
 		return containsRem(x.X, depth+1)
 	case *ssa.ChangeType:
 		return containsRem(x.X, depth+1)
+	case *ssa.Call:
+		// the result of a helper of the repository that computes it with %
+		if cal := x.Common().StaticCallee(); cal != nil && isRepoFunc(cal) && cal.Blocks != nil && cal.Signature.Results().Len() == 1 {
+			for _, ret := range returnsOf(cal) {
+				if r := containsRem(ret.Results[0], depth+3); r != nil {
+					return r
+				}
+			}
+		}
 	}
 	return nil
 }
